@@ -39,7 +39,7 @@
 #define NCLI 3
 #define SRV_PORT 45683
 #define CLI_PORT 40000
-static const char *res_name[NRES] = {"a", "bb", "dyn/c", "a0", "sensors/temp/1", "p.q"};
+static const char *res_name[NRES] = {"a", "bb", "dyn/c", "a0", "sensors/temp/1", ""};   /* index 5: the root resource */
 static const char *fnames[6] = {"dyn", "obs", "cnt", "dyn.tmp", "obs.tmp", "cnt.tmp"};
 
 /* ---------------------------------------------------------------- wrapped stdio */
@@ -405,7 +405,7 @@ static void dump_dyn(void) {
     coap_pdu_t *p;
     if (len - o < 12) break;
     memcpy(&proto, b + o, 4); nl = rd8(b + o + 4);
-    if (nl <= 0 || nl > 0x10000 || len - o < 12 + (size_t)nl + 8) break;
+    if (nl < 0 || nl > 0x10000 || len - o < 12 + (size_t)nl + 8) break;
     pl = rd8(b + o + 12 + nl);
     if (pl <= 0 || pl > 0x10000 || len - o < 20 + (size_t)nl + (size_t)pl) break;
     idx = name_idx(b + o + 12, nl);
